@@ -261,6 +261,10 @@ class BaseLoadedMessage(LoadedMessageInterface):
         content_id = parsed.content_id
         content_desc = parsed.content_description
         content_encoding = parsed.content_transfer_encoding
+        if maintype == 'message' and subtype == 'rfc822' \
+                and not msg.body.has_nested:
+            # nested too deeply to be parsed, it is opaque content
+            maintype, subtype = 'application', 'octet-stream'
         if maintype == 'message' and subtype == 'rfc822':
             sub_msg = msg.body.nested[0]
             sub_env_struct = cls._get_envelope_structure(sub_msg)
